@@ -404,13 +404,35 @@ Proof.
   apply andb_true_iff in X as [X1 X2]. apply Z.ltb_lt in X1. apply Z.leb_le in X2. split; [assumption | lia].
 Qed.
 
-Lemma at_hash_ok_prop : forall a c alg,
-  at_hash_ok (Some a) c alg = true -> at_hash_matches (H_case a) c alg (at_value a).
+Ltac by_alg alg :=
+  let go n := (let E := fresh "E" in
+               destruct (String.eqb alg n) eqn:E;
+               [apply String.eqb_eq in E; subst alg; vm_compute in *; try congruence; try reflexivity; try discriminate|]) in
+  go "RS256"; go "PS256"; go "ES256"; go "HS256"; go "RS384"; go "PS384"; go "ES384"; go "HS384";
+  go "RS512"; go "PS512"; go "ES512"; go "HS512"; go "EdDSA".
+
+(* the verifier's table is the ground-truth table restricted to the asymmetric algorithms *)
+Lemma hash_of_alg_spec : forall alg hk, hash_of_alg alg = Some hk -> spec_hash alg = Some hk.
 Proof.
-  intros a c alg A. unfold at_hash_ok in A. unfold at_hash_matches.
+  intros alg hk Hh. unfold hash_of_alg, spec_hash, string_in in *. cbn [existsb] in *.
+  by_alg alg. cbn in *. discriminate.
+Qed.
+
+Lemma spec_hash_asym : forall alg hk,
+  prefix "HS" alg = false -> spec_hash alg = Some hk -> hash_of_alg alg = Some hk.
+Proof.
+  intros alg hk Hp Hh. unfold hash_of_alg, spec_hash, string_in in *. cbn [existsb] in *.
+  by_alg alg. cbn in *. discriminate.
+Qed.
+
+Lemma at_hash_ok_prop : forall a c alg,
+  at_hash_must_accept (Some a) c alg = true -> at_hash_matches (H_case a) c alg (at_value a).
+Proof.
+  intros a c alg A. unfold at_hash_must_accept in A. unfold at_hash_matches.
   apply orb_true_iff in A as [A|A]; [left; now apply seqb_eq|].
-  destruct (hash_of_alg alg) as [hk|]; [|discriminate].
-  right. exists hk. split; [reflexivity|]. apply seqb_eq in A. exact A.
+  apply andb_true_iff in A as [Hp A]. apply negb_true_iff in Hp.
+  destruct (spec_hash alg) as [hk|] eqn:Hs; [|discriminate].
+  right. exists hk. split; [now apply spec_hash_asym|]. apply seqb_eq in A. exact A.
 Qed.
 
 Lemma at_hash_ok_bool : forall a c alg,
@@ -418,7 +440,7 @@ Lemma at_hash_ok_bool : forall a c alg,
 Proof.
   intros a c alg [A|[hk [Hh A]]]; unfold at_hash_ok.
   - rewrite A. reflexivity.
-  - rewrite Hh. unfold H_case in A. rewrite <- A. rewrite seqb_refl. apply orb_true_r.
+  - rewrite (hash_of_alg_spec _ _ Hh). unfold H_case in A. rewrite <- A. rewrite seqb_refl. apply orb_true_r.
 Qed.
 
 Theorem spec_model : forall i, wf i -> spec i (model i) = true.
@@ -449,7 +471,7 @@ Proof.
     + destruct m as [| | | |bytes c]; cbn [spec]; try reflexivity.
       apply negb_true_iff.
       destruct (claims_margin v c now0 now1 && sig_complete (v_algs v) ks t bytes
-                && at_hash_ok (Some a) c (sig_alg t)) eqn:B; [|reflexivity].
+                && at_hash_must_accept (Some a) c (sig_alg t)) eqn:B; [|reflexivity].
       exfalso. apply andb_true_iff in B as [B Bh].
       pose proof (Hrej bytes c eq_refl B) as A.
       apply andb_true_iff in B as [B1 B2].
@@ -466,7 +488,7 @@ Proof.
     + destruct m as [| | | |bytes c]; cbn [spec]; try reflexivity.
       apply negb_true_iff.
       destruct (claims_margin v c now0 now1 && sig_complete (v_algs v) ks t bytes
-                && at_hash_ok None c (sig_alg t)) eqn:B; [|reflexivity].
+                && at_hash_must_accept None c (sig_alg t)) eqn:B; [|reflexivity].
       exfalso. apply andb_true_iff in B as [B _].
       pose proof (Hrej bytes c eq_refl B) as A2. congruence.
 Qed.
